@@ -201,12 +201,20 @@ impl Driver {
         // `DriverFlags::NO_IOWAIT`) by carrying NO_IOWAIT on the same
         // submit-and-wait `enter`.
         let can_block = want_sqe > 0 && timeout != Some(Duration::ZERO);
+        #[cfg(compio_verif)]
+        compio_log::verif::point(
+            "drv.wait.enter",
+            0,
+            if can_block { timeout.map(|t| t.as_millis() as u64).unwrap_or(u64::MAX) } else { 0 },
+        );
         let res = if self.flags.contains(DriverFlags::NO_IOWAIT) && can_block {
             self.submit_and_wait_no_iowait(want_sqe, timeout)
         } else {
             self.submit_and_wait(want_sqe, timeout)
         };
         trace!("submit result: {res:?}");
+        #[cfg(compio_verif)]
+        compio_log::verif::point("drv.wait.leave", 0, 0);
         match res {
             Ok(_) => {
                 if want_sqe > 0 && self.inner.completion().is_empty() {
@@ -447,6 +455,8 @@ impl Driver {
     }
 
     pub fn flush(&mut self) -> bool {
+        #[cfg(compio_verif)]
+        compio_log::verif::point("drv.flush", 0, 0);
         let succeed = self.submit_auto(Some(Duration::ZERO), false).is_ok();
         // If submission failed, return true to let the driver wake up immediately.
         !succeed | self.notifier.reset()
@@ -454,6 +464,8 @@ impl Driver {
 
     pub fn poll(&mut self, timeout: Option<Duration>) -> io::Result<()> {
         instrument!(compio_log::Level::TRACE, "poll", ?timeout);
+        #[cfg(compio_verif)]
+        compio_log::verif::point("drv.poll", 0, timeout.map(|t| t.as_millis() as u64).unwrap_or(u64::MAX));
 
         if self.poll_blocking() {
             return Ok(());
@@ -464,6 +476,8 @@ impl Driver {
         let need_wait = !self.notifier.reset();
 
         if self.flags.contains(DriverFlags::NEED_PUSH_NOTIFIER) {
+            #[cfg(compio_verif)]
+            compio_log::verif::point("iour.arm_notifier", 0, 0);
             #[allow(clippy::useless_conversion)]
             self.push_raw(
                 PollAdd::new(Fd(self.notifier.as_raw_fd()), libc::POLLIN as _)
